@@ -494,6 +494,38 @@ main(int argc, char **argv)
 			judge(work, 2 * fl, pl, 2 * fl, 0, 0, &r);
 			vf_stat("forged_bad", 1);
 		}
+		/* (d) injected records made of thin air (no key needed): every record type, header-only
+		   and short bodies, at every record boundary including before the first and after the
+		   last record */
+		{
+			static const int types[] = { 20, 21, 22, 23, 24, 0, 255 };
+			static const int lens[] = { 0, 1, 2, 7, 8, 15, 16, 17, 24, 32, 48, 64 };
+			size_t ti, li;
+			for (k = 0; k <= nrecs; k ++) {
+				size_t o = k < nrecs ? recs[k].woff : wire_len;
+				size_t lim = k < nrecs ? recs[k].poff : plain_total;
+				for (ti = 0; ti < sizeof types / sizeof types[0]; ti ++) for (li = 0; li < sizeof lens / sizeof lens[0]; li ++) {
+					size_t bl = (size_t)lens[li];
+					unsigned ver = pv->version;
+					uint32_t vv = vf_below(&r, 6);
+					/* keep the sweep affordable: all lengths for application data and for length 0, a sample otherwise */
+					if (!(types[ti] == 23 || bl == 0 || vf_below(&r, 4) == 0)) continue;
+					if (vv == 0) ver = 0x0300; else if (vv == 1) ver = 0x0304;
+					memcpy(work, wire, o);
+					work[o] = (unsigned char)types[ti];
+					work[o + 1] = (unsigned char)(ver >> 8); work[o + 2] = (unsigned char)ver;
+					work[o + 3] = 0; work[o + 4] = (unsigned char)bl;
+					vf_bytes(&r, work + o + 5, bl);
+					if (bl > 0 && vf_below(&r, 3) == 0) memset(work + o + 5, 0, bl);
+					memcpy(work + o + 5 + bl, wire + o, wire_len - o);
+					snprintf(fault_desc, sizeof fault_desc, "inject unprotected record type=%d version=%04x length=%zu before record %d of %d",
+						types[ti], ver, bl, k, nrecs);
+					judge(work, wire_len + 5 + bl, lim, o + 5 + bl, 0, 0, &r);
+					vf_stat("faults_inject", 1);
+					vf_distinct("inject_shape", "%04x enc%d type%d len%zu", pv->version, base_cs.enc, types[ti], bl);
+				}
+			}
+		}
 		/* random double edits */
 		{
 			int q;
